@@ -602,7 +602,7 @@ prop(
           "stream longer than its size hint (hint 0, n-1, seeded), one chunk of one shard-to-shard byte stream truncated so that the "
           "stream ends inside a record: the affected shard must return Err; every other shard of that helper may wait forever or fail, "
           "but if it returns Ok it must hold every record selected for it that its origin had consumed. distinct = (API, shards, "
-          "selection, mode, placement, counts, hint class) / (fault, ...); non-trivial = the oracle reached a verdict on the run"),
+          "selection, mode, placement, counts, hint class) / (fault, ...); non-trivial = the oracle reached a verdict on the run. resharding by pseudonym inside the hybrid protocol (compute_prf_and_reshard on 2/3/5 shards, some of which start without rows, semi-honest and malicious): the sequence of (public) pseudonyms per shard must be identical on the three helpers and identical between two runs of the same world in which one shard starts 2 virtual seconds late"),
     assumptions=[
         "the shard picker is a pure function of (record id, record) - or PRSS at the given record id - as in every caller in the repository",
         "a 'transport error' is a shard-to-shard byte stream that ends inside a record (the in-memory transport has no integrity check: "
@@ -649,7 +649,7 @@ prop(
         "receive(i) for i > total is not probed (the receiver only reports EndOfStream to the request at the read cursor)",
         "non-completion is decided by shuttle's deadlock report or by quiescence under tokio's paused clock (60 virtual seconds), never by wall time",
         "in-memory transport (TestWorld); default role assignment",
-    ],
+    , ("prf_reshard_order_equal_between_timings", 8), ("prf_reshard_cases_with_shards_without_rows", 3)],
     builds={"quick": ["b1", "b2"], "thorough": ["b1", "b2", "tsan"]},
     shards={"quick": 8, "thorough": 16},
     min_evaluations={"quick": 30000, "thorough": 300000},
